@@ -13,8 +13,11 @@
                   the call returns (Ok or Err): no Pan, no Fuel.
    SizeOk w     = every identifiables map has fewer than 10^39 entries (`format!("{counter}")` of make_unique_item_name
                   is injective on the counters that can occur; only the copy operations use it).
-   C12_coverage   covered_op = every constructor of `op` except move_element_here(+_at) and set_character_data with a
-                  Float value (f64::to_string is not modelled): 24 of 26 constructors.
+   side12 w o   = for move_element_here / _at: the two elements are not in different models (the cross-model path
+                  move_element_full is PENDING: it is covered by the correspondence and the fuzzer only).
+   C12_coverage   covered_op = every constructor of `op`; the only excluded argument class is set_character_data with a
+                  Float value (f64::to_string is not modelled).  So all 26 constructors are covered, two of them
+                  (OpMove, OpMoveAt) under side12.
                   pending_op = the rest: covered by the correspondence + implementation fuzzer only.
    C12_tables_real [F]: tables_ok12 holds for the regenerated tables.
    C12_depth_tree / C12_depth_walk [U]: the subtree below any node has height < number of allocated nodes + 1 (= the fuel
@@ -34,17 +37,13 @@ Theorem C12_no_panic_partial :
     nametab_ok tab_en = true ->
     name_ok tab_el (name_short_name T) ->
     forall w o,
-      covered_op o = true -> PanicFree T tab_el tab_en w -> SizeOk w -> op_wf tab_el tab_en w o ->
+      covered_op o = true -> PanicFree T tab_el tab_en w -> SizeOk w -> op_wf tab_el tab_en w o -> side12 w o ->
       (forall s, run_op T tab_el tab_en check_fn LATEST root_attrs o w <> Pan s) /\
       run_op T tab_el tab_en check_fn LATEST root_attrs o w <> Fuel.
 Proof. exact no_panic_covered'. Qed.
 
 Theorem C12_coverage : forall o,
-  covered_op o = match o with
-                 | OpMove _ _ | OpMoveAt _ _ _ => false
-                 | OpSetCData _ (DFloat _) => false
-                 | _ => true
-                 end.
+  covered_op o = match o with OpSetCData _ (DFloat _) => false | _ => true end.
 Proof. exact coverage. Qed.
 
 Theorem C12_tables_real : tables_ok12 RT = true.
